@@ -486,6 +486,31 @@ func runC01(h *H) {
 	}
 	// ---- number sets ----
 	setCase(cfgs[0], imap.SeqSet{})
+	// an empty set is refused whatever its provenance (nil, literal, pre-sized, emptied by
+	// re-slicing): only the SearchRes marker itself is written as "$"
+	{
+		used := imap.UIDSet{{Start: 3, Stop: 5}, {Start: 9, Stop: 9}}
+		usedSeq := imap.SeqSet{{Start: 3, Stop: 5}}
+		empties := []struct {
+			name string
+			set  imap.NumSet
+		}{
+			{"nil-uidset", imap.UIDSet(nil)}, {"uidset-literal", imap.UIDSet{}}, {"uidset-make-0", make(imap.UIDSet, 0)},
+			{"uidset-make-0-cap-1", make(imap.UIDSet, 0, 1)}, {"uidset-make-0-cap-8", make(imap.UIDSet, 0, 8)}, {"uidset-resliced", used[:0]},
+			{"nil-seqset", imap.SeqSet(nil)}, {"seqset-make-0-cap-8", make(imap.SeqSet, 0, 8)}, {"seqset-resliced", usedSeq[:0]},
+		}
+		for _, c := range []wcfg{cfgs[0], cfgs[len(cfgs)-1]} {
+			for _, e := range empties {
+				e := e
+				out, err := wireEncode(c, func(enc *shim.Encoder) { enc.NumSet(e.set) })
+				desc := map[string]interface{}{"value": "empty set (" + e.name + ")"}
+				encCase(c, "numset", "(ENumSet [])", 0, "", false, func(enc *shim.Encoder) { enc.NumSet(e.set) }, true, desc)
+				if err == nil {
+					h.Fail("empty-set-written:"+e.name, fmt.Sprintf("an empty number set (%s) was written as %q under [%s] instead of being refused", e.name, out, c), desc)
+				}
+			}
+		}
+	}
 	r15 := &c15Run{h: h}
 	for i := 0; i < h.Pick(150, 2000); i++ {
 		var s imap.SeqSet
